@@ -301,12 +301,14 @@ impl PidTracking {
         self.modes[slot] = mode;
         self.last_modified_slot = slot as u32;
 
-        self.total_count += 1;
+        // The counters come from the mapped region, which other processes write:
+        // never overflow on them (remove_process saturates as well).
+        self.total_count = self.total_count.saturating_add(1);
         if mode != 2 {
             // Not read-only
-            self.writer_count += 1;
+            self.writer_count = self.writer_count.saturating_add(1);
         }
-        self.generation += 1;
+        self.generation = self.generation.wrapping_add(1);
         self.state = 1;
 
         Some(slot)
@@ -710,6 +712,19 @@ mod tests {
 
         // Remove non-existent
         assert!(!pt.remove_process(9999));
+    }
+
+    #[test]
+    fn test_pid_tracking_counters_from_mapped_memory_do_not_overflow() {
+        // writer_count and generation are copied from the mapped region as they
+        // are; add_process used to overflow on them
+        let mut pt = PidTracking::new(4);
+        pt.writer_count = u32::MAX;
+        pt.generation = u64::MAX;
+        let slot = pt.add_process(1234, 0).expect("table has capacity");
+        assert_eq!(slot, 0);
+        assert_eq!(pt.writer_count, u32::MAX);
+        assert_eq!(pt.generation, 0);
     }
 
     #[test]
